@@ -195,6 +195,10 @@ def check_arbitrary_string(rep, g):
         elif v['kind'] == 'len_char_max' and v.get('value') is not None:
             mx = v['value'] if mx is None else min(mx, v['value'])
     if fi is None:
+        if not d['validators'] and not d['custom']:
+            rep.ob('R-ARB-STR', all(o.kind == 'return' for o in outs) and bool(outs), g,
+                   'string without validation: arbitrary = inner arbitrary + new, no panic path', {'kinds': sorted({o.kind for o in outs})})
+            return
         rep.ob('R-ARB-STR', None, g, 'string arbitrary does not start with int_in_range for the target length', {})
         return
     G, a, b = fi
@@ -378,6 +382,14 @@ def ceval(ex, t, env):
         if t[1] == 'Not' and a[0] == 'bool':
             return ('bool', not a[1])
         raise Unknown('un')
+    if tag == 'call' and len(t[2]) == 2 and (cpath(ex, t).endswith('>::max') or cpath(ex, t).endswith('>::min')):
+        a = ceval(ex, strip_view(ex, t[2][0]), env)
+        b = ceval(ex, strip_view(ex, t[2][1]), env)
+        if a[1] != a[1]:
+            return b
+        if b[1] != b[1]:
+            return a
+        return (a[0], max(a[1], b[1]) if cpath(ex, t).endswith('>::max') else min(a[1], b[1]))
     if tag == 'call' and len(t[2]) == 1:
         p = cpath(ex, t)
         a = ceval(ex, strip_view(ex, t[2][0]), env)
@@ -452,6 +464,11 @@ def ieval(ex, t, var, vty, vlo, vhi):
     if tag == 'un' and t[1] == 'Neg':
         a = ieval(ex, t[2], var, vty, vlo, vhi)
         return (a[0], -a[2], -a[1])
+    if tag == 'call' and len(t[2]) == 2 and (cpath(ex, t).endswith('>::max') or cpath(ex, t).endswith('>::min')):
+        a = ieval(ex, strip_view(ex, t[2][0]), var, vty, vlo, vhi)
+        b = ieval(ex, strip_view(ex, t[2][1]), var, vty, vlo, vhi)
+        f = max if cpath(ex, t).endswith('>::max') else min
+        return (a[0], f(a[1], b[1]), f(a[2], b[2]))
     if tag == 'call' and len(t[2]) == 1 and cpath(ex, t).endswith('>::abs'):
         a = ieval(ex, strip_view(ex, t[2][0]), var, vty, vlo, vhi)
         lo = 0.0 if a[1] <= 0 <= a[2] else min(abs(a[1]), abs(a[2]))
@@ -484,6 +501,82 @@ def cond_possible(ex, cnd, val, var, vty, vlo, vhi):
             can_false = math.isinf(a[1]) or math.isinf(a[2])
             return can_true if t else can_false
     raise Unknown('cond shape')
+
+
+def monotone_inc(ex, t, var):
+    """is the scalar term a monotone non-decreasing function of var (structurally)? constants count as monotone"""
+    if t == var:
+        return True
+    if t[0] == 'const':
+        return const_value(t) is not None
+    if t[0] == 'cast' and t[1] in ('IntToFloat', 'FloatToFloat'):
+        return monotone_inc(ex, t[3], var)
+    if t[0] == 'bin':
+        op, a, b = t[1], t[2], t[3]
+        ca = const_value(a) if a[0] == 'const' else None
+        cb = const_value(b) if b[0] == 'const' else None
+        if op == 'Add':
+            return monotone_inc(ex, a, var) and monotone_inc(ex, b, var)
+        if op == 'Sub':
+            return cb is not None and monotone_inc(ex, a, var)
+        if op == 'Mul':
+            if cb is not None and cb >= 0:
+                return monotone_inc(ex, a, var)
+            if ca is not None and ca >= 0:
+                return monotone_inc(ex, b, var)
+            return False
+        if op == 'Div':
+            return cb is not None and cb > 0 and monotone_inc(ex, a, var)
+    return False
+
+
+def refine_int_draw(ex, conds, var, ty, lo, hi):
+    """narrow the interval of an integer draw by the path conditions that compare a monotone function of the draw with a
+    constant (exact evaluation + binary search). returns (lo, hi) or None if the conditions exclude every draw"""
+    for cn, v in conds:
+        t = truth(v)
+        c = cn
+        while c[0] == 'un' and c[1] == 'Not':
+            c = c[2]
+            t = not t
+        if c[0] != 'bin' or c[1] not in OPSET:
+            continue
+        a, b = c[2], c[3]
+        if not (b[0] == 'const' and monotone_inc(ex, a, var) and contains(a, var)):
+            continue
+
+        def holds(r):
+            return bool(ceval(ex, c, {var: (ty, r)})[1]) == t
+        # truth set of `a(r) op const` for monotone a: Lt/Le -> prefix, Gt/Ge -> suffix; negation swaps them
+        prefix = (c[1] in ('Lt', 'Le')) == t
+        if c[1] in ('Eq', 'Ne'):
+            continue
+        try:
+            if prefix:
+                if not holds(lo):
+                    return None
+                L, H = lo, hi            # find the largest r with holds(r)
+                while L < H:
+                    m = (L + H + 1) // 2
+                    if holds(m):
+                        L = m
+                    else:
+                        H = m - 1
+                hi = L
+            else:
+                if not holds(hi):
+                    return None
+                L, H = lo, hi            # find the smallest r with holds(r)
+                while L < H:
+                    m = (L + H) // 2
+                    if holds(m):
+                        H = m
+                    else:
+                        L = m + 1
+                lo = L
+        except Unknown:
+            continue
+    return lo, hi
 
 
 def float_draw(ex, outs):
@@ -580,22 +673,46 @@ def check_arbitrary_float(rep, g):
             # try to prove the row infeasible: some condition cannot take its edge for any draw
             proved = False
             why = undecidable
+            # rows reached through the retry loop: the base value is `from_be_bytes/from_ne_bytes(mutated bytes)`, an opaque
+            # float that the loop exit condition constrains (is_finite / !is_nan); use it as the interval variable
+            leaves = set()
+            for cn, v in o.conds:
+                for t in walk(cn):
+                    if t[0] == 'call' and cname(ex, t) in ('from_be_bytes', 'from_ne_bytes'):
+                        leaves.add(t)
+            row_var, row_ty = var, ty
+            if len(leaves) == 1:
+                row_var, row_ty = next(iter(leaves)), d['inner']
             try:
-                if ty in sym.INT_TYPES:
-                    vlo, vhi = (0, (1 << sym.INT_TYPES[ty]) - 1) if ty[0] == 'u' else (-(1 << (sym.INT_TYPES[ty] - 1)), (1 << (sym.INT_TYPES[ty] - 1)) - 1)
+                var_, ty_ = row_var, row_ty
+                if ty_ in sym.INT_TYPES:
+                    vlo, vhi = (0, (1 << sym.INT_TYPES[ty_]) - 1) if ty_[0] == 'u' else (-(1 << (sym.INT_TYPES[ty_] - 1)), (1 << (sym.INT_TYPES[ty_] - 1)) - 1)
                     notnan = True
+                    ref = refine_int_draw(ex, o.conds, var_, ty_, vlo, vhi)
+                    if ref is None:
+                        proved = True
+                        notnan = False
+                        why = None
+                    else:
+                        vlo, vhi = ref
                 else:
                     vlo, vhi = float('-inf'), float('inf')
-                    notnan = any(cn[0] == 'call' and cpath(ex, cn).endswith('>::is_nan') and strip_view(ex, cn[2][0]) == var and not truth(v)
+                    notnan = any(cn[0] == 'call' and cpath(ex, cn).endswith('>::is_nan') and strip_view(ex, cn[2][0]) == var_ and not truth(v)
                                  or (cn[0] == 'un' and cn[1] == 'Not' and cn[2][0] == 'call' and cpath(ex, cn[2]).endswith('>::is_nan')
-                                     and strip_view(ex, cn[2][2][0]) == var and truth(v))
+                                     and strip_view(ex, cn[2][2][0]) == var_ and truth(v))
                                  for cn, v in o.conds)
+                    finite = any(cn[0] == 'call' and cpath(ex, cn).endswith('>::is_finite') and strip_view(ex, cn[2][0]) == var_ and truth(v)
+                                 for cn, v in o.conds)
+                    if finite:
+                        notnan = True
+                        mx = 3.4028234663852886e38 if ty_ == 'f32' else 1.7976931348623157e308
+                        vlo, vhi = -mx, mx
                 if notnan:
                     for cn, v in o.conds:
                         if cn[0] == 'discr':
                             continue
                         try:
-                            if not cond_possible(ex, cn, v, var, ty, vlo, vhi):
+                            if not cond_possible(ex, cn, v, var_, ty_, vlo, vhi):
                                 proved = True
                                 break
                         except Unknown as e:
